@@ -217,14 +217,15 @@ void bundle_case(vt::Rng& rng, int64_t icase)
 void sharp_case(vt::Rng& rng, int64_t icase)
 {
     const auto id = rng.pick(std::vector<std::string>{"rqb", "fpba1", "fpba2", "ellipsoid"});
-    const auto n  = id == "ellipsoid" ? rng.range(1, 6) : rng.range(1, 8);
+    const auto n  = rng.range(1, 8);
     matrix_t   A(n, n);
+    const auto wide = rng.coin(1, 4);
     {
         const auto Q1 = random_orthogonal(rng, n), Q2 = random_orthogonal(rng, n);
         vector_t   d(n);
         for (tensor_size_t i = 0; i < n; ++i)
         {
-            d(i) = rng.uniform(1.0, 5.0);
+            d(i) = (i == 0) ? 1.0 : std::pow(10.0, rng.uniform(0.0, wide ? 2.5 : 0.7)); // smallest singular value >= 1, no upper bound
         }
         A.matrix() = Q1.matrix() * d.vector().asDiagonal() * Q2.matrix().transpose();
     }
@@ -235,16 +236,42 @@ void sharp_case(vt::Rng& rng, int64_t icase)
     // x0 within distance 4 of x*
     auto       dir = vt::random_x0(rng, n, 1.0);
     const auto nrm = std::max(1e-6, dir.lpNorm<2>());
-    const vector_t x0 = xstar.vector() + dir.vector() * (rng.uniform(0.1, 4.0) / nrm);
+    const auto     dist0 = rng.coin(1, 10) ? rng.pick(std::vector<double>{0.0, 4.0}) : rng.uniform(0.01, 4.0);
+    const vector_t x0    = xstar.vector() + dir.vector() * (dist0 / nrm);
 
     auto       solver = solver_t::all().get(id);
     const auto eps    = std::pow(10.0, rng.uniform(-8.0, -3.0));
-    const auto evals  = id == "ellipsoid" ? int64_t{20000} : rng.pick(std::vector<int64_t>{100, 500, 2000, 20000});
+    const auto evals  = id == "ellipsoid" ? int64_t{20000} : (rng.coin(1, 3) ? rng.pick(std::vector<int64_t>{100, 20000}) : static_cast<int64_t>(std::pow(10.0, rng.uniform(2.0, 4.3))));
     solver->parameter("solver::epsilon")   = eps;
     solver->parameter("solver::max_evals") = evals;
     if (id != "ellipsoid")
     {
-        solver->parameter("solver::" + id + "::bundle::max_size") = rng.pick(std::vector<int64_t>{2, 3, 5, 10, 30, 100});
+        solver->parameter("solver::" + id + "::bundle::max_size") = rng.coin(1, 3) ? rng.pick(std::vector<int64_t>{2, 3, 100}) : rng.range(2, 100);
+        // curve-search / proximity parameters inside their domains (within a factor 4 of the defaults)
+        if (rng.coin())
+        {
+            for (const auto& p0 : solver->parameters())
+            {
+                const auto& name = p0.name();
+                if ((name.find("csearch") == std::string::npos && name.find("prox") == std::string::npos) || !rng.coin())
+                {
+                    continue;
+                }
+                if (const auto* r = std::get_if<parameter_t::frange_t>(&p0.storage()); r != nullptr)
+                {
+                    const auto v = r->m_value * std::pow(4.0, rng.uniform(-1.0, 1.0));
+                    if (std::isfinite(v) && v > r->m_min && v < r->m_max)
+                    {
+                        solver->parameter(name) = v;
+                    }
+                }
+            }
+        }
+    }
+    else
+    {
+        // the ellipsoid's initial radius: x* must lie inside it
+        solver->parameter("solver::ellipsoid::R") = rng.coin() ? 10.0 : std::max(1e-3, dist0) * std::pow(10.0, rng.uniform(0.01, 1.5));
     }
     vt::counting_function_t counting(function);
     solver_state_t          state;
@@ -267,7 +294,7 @@ void sharp_case(vt::Rng& rng, int64_t icase)
     {
         nG += e.grad ? 1 : 0;
     }
-    vt::put(vt::J("Sharp").i("case", icase).s("solver", id).i("n", n).s("status", status).b("gapOK", gap <= bound).b("mustConverge", id == "ellipsoid").i(
+    vt::put(vt::J("Sharp").i("case", icase).s("solver", id).i("n", n).s("status", status).b("gapOK", gap <= bound).b("mustConverge", id == "ellipsoid" && n <= 6).i(
         "evals", nF + nG).b("linf", linf));
 }
 } // namespace
